@@ -9,12 +9,6 @@ def legQty (ls : List Leg) : Rat := rsum (ls.map (·.qty))
 theorem legQty_append (a b : List Leg) : legQty (a ++ b) = legQty a + legQty b := by
   simp [legQty, rsum_append]
 
-/-- claims on the days `fs` (aligned list `cl`), converted into the units in which `k` is 1:
-    day j's claim is divided by `k · Π r` over the days before it -/
-def outK : Rat → List Day → List Rat → Rat
-  | _, [], _ => 0
-  | k, e :: rest, cl => cl.headD 0 / k + outK (k * e.r) rest cl.tail
-
 theorem rat_div_pos {a k : Rat} (ha : 0 < a) (hk : 0 < k) : 0 < a / k := by
   have : 0 < k⁻¹ := Rat.inv_pos.mpr hk
   rw [Rat.div_def]; exact Rat.mul_pos ha this
